@@ -22,6 +22,8 @@ def specs(tier, seed):
     S.append(sim.spec('T1', schedule=(('run', 2),), control=('arb', -3, 3), tag=':wide'))
     S.append(sim.spec('T1', schedule=(('run', 2),), control=('arbopt2',)))
     S.append(sim.spec('T1', schedule=(('run', 3),)))
+    S.append(sim.spec('T4', schedule=(('run', 2),), control=('arb', -1, 1), tag=':locking'))
+    S.append(sim.spec('T4', schedule=(('run', 3),), control=('const', ((0.0, 0.125, 0.0), (0.2, 1.0, 0.5))), tag=':locking_const'))
     if tier == 'thorough':
         S.append(sim.spec('T6', schedule=(('run', 2),), control=('arb', -3, 3), tag=':wide'))
         S.append(sim.spec('T4', schedule=(('run', 2),), control=('arb', -3, 3), tag=':wide', max_paths=30000))
@@ -43,7 +45,7 @@ BOUNDS = {
     'quick': 'PWMControl.apply_rules on a real powertrain (T3) in an arbitrary state: rule sets of 0..3 rules drawn from '
              '{arbitrary-proposal rule, ConstantPWM, ReachAngularPosition, StartProportionalToAngularPosition, '
              'StartLimitCurrent} with all parameters, windows and the state symbolic and proposals unbounded; whole '
-             'simulations K=2 with one arbitrary rule proposing in [-3,3] (T1, T3) and with two optional arbitrary rules (T1)',
+             'simulations K=2 with one arbitrary rule proposing in [-3,3] (T1, T3), on the self-locking T4 (arbitrary duty in [-1,1]; ConstantPWM rules that cut the supply and restore it) and with two optional arbitrary rules (T1)',
     'thorough': 'rule sets of 0..4 rules; simulations on T4/T6, conflicts on T3',
 }
 OUTSIDE = 'more than 4 rules; K>2 with symbolic proposals at every instant'
